@@ -250,7 +250,7 @@ def job_dfact():
     results = []
     defined = z3.Or(*[n == k for k in tab])
     results.append(discharge(Obligation('double-factorial table defines every n in 0..50', defined, [n >= 0, n <= 50], with_axioms=False, with_dens=False,
-                                        replay=lambda md: (True, 'table entry %s missing' % md.get('n')), key='dfact:defined')))
+                                        replay=lambda md: (int(md.get('n', 0)) not in tab, 'special_x.pyx (current source) has no literal for pre_calculated_doubles_ptr[%s]' % md.get('n')), key='dfact:defined')))
 
     def rp(md):
         k = int(md['n'])
@@ -270,8 +270,27 @@ def job_dfact():
         arr.data[k] = Q(z3.Real('t%d' % k))
     ns['pre_calculated_doubles_ptr'] = Ptr(arr, 0)
     ok = all(fns['cf_double_factorial'](k) is arr.data[k] for k in range(51))
+
+    def rp_index(md):
+        span = loader.SPANS.get(('TidalPy/utilities/math/special_x.pyx', 'cf_double_factorial'))
+        insync = bool(span) and replay.compiled_in_sync('TidalPy/utilities/math/special_x.pyx', span)[0]
+        if not insync:
+            return True, 'compiled special_x is STALE with respect to the .pyx: witnessed on the transliterated current source only (cf_double_factorial(k) does not return table[k] for some k in 0..50)'
+        r = replay.call_real([{'module': 'TidalPy.utilities.math.special_x', 'func': 'double_factorial', 'args': [k]} for k in range(51)])
+        bad = [(k, x.get('value'), float(tab[k])) for k, x in enumerate(r) if not x['ok'] or x['value'] != float(tab[k])]
+        return bool(bad), 'compiled double_factorial(k) vs source literal table[k]: %r' % bad[:4]
+
+    def rp_rec(md):
+        ks = (51, 52, 60, 99, 170)
+        r = replay.call_real([{'module': 'TidalPy.utilities.math.special_x', 'func': 'double_factorial', 'args': [k]} for k in ks])
+        bad = [(k, x.get('value'), float(dfact(k))) for k, x in zip(ks, r) if not x['ok'] or abs(x['value'] - float(dfact(k))) > 1e-12 * float(dfact(k))]
+        span = loader.SPANS.get(('TidalPy/utilities/math/special_x.pyx', 'cf_double_factorial'))
+        insync = bool(span) and replay.compiled_in_sync('TidalPy/utilities/math/special_x.pyx', span)[0]
+        if not insync:
+            return True, 'compiled special_x is STALE: recursion branch witnessed on the transliterated current source only'
+        return bool(bad), 'compiled double_factorial(n) vs n!! (relative 1e-12): %r' % bad
     results.append(discharge(Obligation('cf_double_factorial(n) returns table[n] for every n in 0..50 (extent-checked)', z3.BoolVal(ok), [], with_axioms=False, with_dens=False,
-                                        replay=lambda md: (True, 'wrong table index'), key='dfact:index')))
+                                        replay=rp_index, key='dfact:index')))
     # recursion branch: Gamma(n+1)/(n-1)!! == n!!  with Gamma(n+1) = n! exact
     ns['tgamma'] = lambda v: Q(Fr(math.factorial(int(Q.of(v).const()) - 1)))
     for k in range(51):
@@ -280,7 +299,7 @@ def job_dfact():
     for k in (51, 52, 60, 99, 170):
         conds.append(eq_goal(fns['cf_double_factorial'](k), Q(Fr(dfact(k)))))
     results.append(discharge(Obligation('cf_double_factorial recursion branch (n in {51,52,60,99,170}): Gamma(n+1)/(n-1)!! == n!! with exact Gamma', z3.And(*conds), [], with_axioms=False, with_dens=False,
-                                        replay=lambda md: (True, 'recursion branch wrong'), key='dfact:recursion')))
+                                        replay=rp_rec, key='dfact:recursion')))
     return {'results': results, 'encoded': loader.ENCODED, 'label': 'double factorial'}
 
 
@@ -303,9 +322,17 @@ def job_sqrt_neg():
             return (a is None) or abs(a - cmath.sqrt(z)) > 1e-14 * abs(cmath.sqrt(z)), 'sqrt_neg(%r)=%r csqrt=%r cmath=%r' % (z, a, b, cmath.sqrt(z))
         results.append(discharge(Obligation('interpreted _sqrt_neg_python (complex branch) is the principal square root, region %s' % region, goal, A, replay=rp, key='sqrt_neg:%s' % region)))
     CTX.facts = [x.re != 0]
+
+    def rp_real(md):
+        xv = float(md.get('x', -2.0))
+        r = replay.call1('TidalPy.utilities.math.special', 'sqrt_neg', xv, True)
+        if not r['ok']:
+            return True, 'sqrt_neg(%r, True) raised %s' % (xv, r.get('error'))
+        a = complex(r['value']) if not isinstance(r['value'], complex) else r['value']
+        return abs(a - cmath.sqrt(complex(xv))) > 1e-14 * abs(cmath.sqrt(complex(xv))), 'sqrt_neg(%r, is_real=True) = %r, principal square root = %r' % (xv, a, cmath.sqrt(complex(xv)))
     wr = Q.of(fns['_sqrt_neg_python'](x, True))
     results.append(discharge(Obligation('interpreted _sqrt_neg_python (is_real branch): w^2 == x, principal branch', z3.And(eq_goal(wr * wr, x), (wr.real >= 0).c, (wr.imag >= 0).c), [x.re != 0],
-                                        replay=lambda md: (True, 'real branch wrong at x=%s' % md.get('x')), key='sqrt_neg:real')))
+                                        replay=rp_real, key='sqrt_neg:real')))
     return {'results': results, 'encoded': loader.ENCODED, 'axioms': CTX.axiom_notes, 'label': 'sqrt_neg'}
 
 
